@@ -92,8 +92,50 @@ pub fn drain_all(pkg: &rpm::Package) -> String {
     if k > cap {
         return "runaway".into();
     }
+    // the standard adapters are repeated `next()` calls by definition: `nth`, `skip`, `step_by`, `last`, `count` on fresh
+    // iterators must hand out the corresponding items of the plain iteration (seed C07-9: an `nth` override that left the
+    // padding of skipped entries in the stream). Compared only when the plain iteration met no error item.
+    if !runs.iter().any(|(c, _)| *c == 'e') {
+        if let Some(which) = adapters_differ(pkg, k) {
+            return format!("adapters-differ:{}", which);
+        }
+    }
     let pat: String = if runs.is_empty() { "-".into() } else { runs.iter().map(|(c, n)| format!("{}{}", c, n)).collect() };
     format!("{}:{}:{:016x}", k, pat, h)
+}
+
+fn item_sig(r: Result<rpm::RpmFile, rpm::Error>) -> String {
+    match r {
+        Ok(f) => format!("{}:{:016x}:{}", hx(f.metadata.path.as_os_str().as_bytes()), fnv(&f.content), f.content.len()),
+        Err(_) => "e".into(),
+    }
+}
+
+/// `Some(adapter name)` when an adapter over a fresh `files()` iterator disagrees with the plain iteration of `n` items
+fn adapters_differ(pkg: &rpm::Package, n: usize) -> Option<&'static str> {
+    let plain: Vec<String> = pkg.files().ok()?.take(n + 1).map(item_sig).collect();
+    let fresh = || pkg.files().ok();
+    if fresh()?.skip(1).take(n + 1).map(item_sig).collect::<Vec<_>>() != plain.iter().skip(1).cloned().collect::<Vec<_>>() {
+        return Some("skip");
+    }
+    if fresh()?.step_by(2).take(n + 1).map(item_sig).collect::<Vec<_>>() != plain.iter().step_by(2).cloned().collect::<Vec<_>>() {
+        return Some("step_by");
+    }
+    for j in [1usize, 2] {
+        let mut it = fresh()?;
+        let got = it.nth(j).map(item_sig);
+        let rest: Vec<String> = it.take(n + 1).map(item_sig).collect();
+        if got != plain.get(j).cloned() || rest != plain.iter().skip(j + 1).cloned().collect::<Vec<_>>() {
+            return Some("nth");
+        }
+    }
+    if fresh()?.count() != plain.len() {
+        return Some("count");
+    }
+    if fresh()?.last().map(item_sig) != plain.last().cloned() {
+        return Some("last");
+    }
+    None
 }
 
 /// iterate `files()` and print the canonical observation
@@ -213,7 +255,14 @@ fn files_op(a: &[&str]) -> Option<String> {
     for (i, (dest, perm, size, kind, seed)) in specs.iter().enumerate() {
         let src = dir.join(format!("f{}", i));
         std::fs::write(&src, content_of(*kind, *seed, *size)).ok()?;
-        b = match b.with_file(&src, rpm::FileOptions::new(dest.clone()).mode(rpm::FileMode::regular(*perm))) {
+        // kind 's': the entry is a symbolic link with a (non-empty) target; its archive data is still the source file's bytes,
+        // recorded size and digest are those of that content (seed C07-10: the link target written as entry data)
+        let opts = if *kind == 's' {
+            rpm::FileOptions::new(dest.clone()).mode(rpm::FileMode::symbolic_link(*perm)).symlink(format!("/link/target{}", seed))
+        } else {
+            rpm::FileOptions::new(dest.clone()).mode(rpm::FileMode::regular(*perm))
+        };
+        b = match b.with_file(&src, opts) {
             Ok(b) => b,
             Err(_) => return Some("err-build".into()),
         };
@@ -482,6 +531,13 @@ pub fn gen(ctx: &mut Ctx) {
             e.req(&format!("files comp={} large=0 {} {}", c, fspec(b, 0o644, 6, 'r', 4), fspec(a, 0o755, 2, 'p', 5)));
         }
     }
+    // symbolic-link entries (kind 's') between regular files, empty and non-empty placeholder content
+    for c in ["none", "gzip:6", "zstd:3"] {
+        e.req(&format!("files comp={} large=0 {} {} {}", c, fspec(b"/usr/bin/awesome", 0o755, 5, 'p', 1),
+            fspec(b"/usr/bin/awesome_link", 0o777, 5, 's', 2), fspec(b"/usr/share/z", 0o644, 3, 'r', 3)));
+        e.req(&format!("files comp={} large=0 {} {}", c, fspec(b"/l/empty_link", 0o777, 0, 's', 4), fspec(b"/l/real", 0o644, 9, 'p', 5)));
+    }
+    e.req(&format!("files comp=none large=1 {} {}", fspec(b"/l/link", 0o777, 7, 's', 6), fspec(b"/l/real", 0o644, 9, 'p', 7)));
     // C. random file sets
     let nrand = if thorough { 1500 } else { 110 };
     for _ in 0..nrand {
